@@ -133,7 +133,7 @@ def run(ctx):
     chunk = 1500
     for c in range(0, len(behs), chunk):
         part = behs[c:c + chunk]
-        st, res = execute(ctx, binary, part, None, "b%d" % c, isolate=25 if quick else 10)
+        st, res = execute(ctx, binary, part, None, "b%d" % c, isolate=25 if quick else 20)
         for k in ("behaviours", "steps", "isolated", "leaks"):
             summary[k] += st.get(k, 0)
         for r_ in res:
